@@ -9,7 +9,7 @@ wt=/tmp/confirm/wt_$id
 out=/tmp/confirm/results/$id.txt
 mkdir -p /tmp/confirm/results
 git -C /repo worktree add -q --detach $wt HEAD || exit 9
-mkdir -p $wt/_seed/$orig && cp $S/* $wt/_seed/$orig/
+mkdir -p $wt/_seed/$orig && cp -r $S/* $wt/_seed/$orig/
 cd $wt
 timeout 600 /venv/bin/python -W ignore _seed/$orig/demo.py > /tmp/confirm/results/$id.clean.log 2>&1; c0=$?
 git apply _seed/$orig/patch.diff; ap=$?
